@@ -1,13 +1,15 @@
 /-
-C07, section B: progress of the network thread (`c07_drains`). From every live state the writer thread alone, with the
-socket writable (`select false true`), can bring every queued byte onto the wire.
+C07, section B: progress of the writer (`c07_drains`). From every live state the writer thread alone can bring every
+queued byte onto the wire: finish the packet in hand, get to a place where `_packet_write` may run (`select false true`
+from `armed`, `next` from `misc`; `top`, `woke`, `writing` already are), then pop/send until the queue is empty. This
+also covers the states without a wake-up pipe (no loop_start() yet), where `_loop` itself cannot run.
 -/
 import PahoProofs.Lemmas.ThrWake
 namespace Paho.Thr
 open Paho
 
 /-! ### packets in the queue / in hand are incomplete (no empty packet is ever appended) -/
-def PosLt (s : WakeSys) : Prop := (∀ p ∈ s.queue, p.pos < p.len) ∧ (∀ p, s.lpc = .inhand p → p.pos < p.len)
+def PosLt (s : WakeSys) : Prop := (∀ p ∈ s.queue, p.pos < p.len) ∧ (∀ p, s.hand = some p → p.pos < p.len)
 
 theorem poslt_step (s : WakeSys) (t : Tid) (a : WAct) (s' : WakeSys) (ha : ∀ id, a ≠ .append id 0) (hi : PosLt s)
     (h : s.step t a = some s') : PosLt s' := by
@@ -19,42 +21,56 @@ theorem poslt_step (s : WakeSys) (t : Tid) (a : WAct) (s' : WakeSys) (ha : ∀ i
       rcases Nat.eq_zero_or_pos len with h0 | h0
       · exact absurd (by rw [h0]) (ha id)
       · exact h0
+    have key : ∀ s1 : WakeSys, s1.queue = s.queue ++ [{ id := id, len := len }] → s1.hand = s.hand →
+        (∀ p ∈ s1.queue, p.pos < p.len) ∧ (∀ p, s1.hand = some p → p.pos < p.len) := by
+      intro s1 e1 e2
+      rw [e1, e2]
+      refine ⟨?_, hh⟩
+      intro p hp
+      simp at hp
+      rcases hp with hp | hp
+      · exact hq p hp
+      · subst hp; exact hl
+    split at h
+    · split at h <;> simp at h
+      subst h
+      exact key _ rfl rfl
+    · split at h <;> simp [Gen.wakeAfterAppend] at h
+      subst h
+      exact key _ rfl rfl
+  case wake =>
+    split at h
+    · simp at h
     split at h <;> simp [Gen.wakeAfterAppend] at h
     subst h
-    refine ⟨?_, hh⟩
-    intro p hp
-    simp at hp
-    rcases hp with hp | hp
-    · exact hq p hp
-    · subst hp; exact hl
+    exact ⟨hq, hh⟩
   case send n =>
     split at h
     · simp at h
     split at h
     · rename_i p hp
       split at h
-      · split at h <;> simp at h <;> subst h
-        · exact ⟨hq, by simp⟩
-        · refine ⟨hq, ?_⟩
-          intro p' hp'
-          simp at hp'
-          subst hp'
-          simp; omega
+      · simp at h; subst h
+        refine ⟨hq, ?_⟩
+        intro p' hp'
+        simp at hp'
+        obtain ⟨_, hp'⟩ := hp'
+        subst hp'
+        simp; omega
       · simp at h
     · simp at h
   case pop =>
     split at h
     · simp at h
     split at h
-    · rename_i p rest hl hqq
+    · rename_i p rest hqq
       simp at h; subst h
       refine ⟨fun x hx => hq x (by simp [hqq, hx]), ?_⟩
       intro p' hp'
       simp at hp'; subst hp'
       exact hq p (by simp [hqq])
     · simp at h; subst h
-      exact ⟨hq, by simp⟩
-    · simp at h
+      exact ⟨hq, hh⟩
   case pushback =>
     split at h
     · simp at h
@@ -74,8 +90,7 @@ theorem poslt_step (s : WakeSys) (t : Tid) (a : WAct) (s' : WakeSys) (ha : ∀ i
       | (simp at h; done)
       | (simp at h
          subst h
-         simp_all
-         done)
+         first | exact ⟨hq, hh⟩ | (simp_all; done))
 
 theorem poslt_run (s : WakeSys) (sched : List (Tid × WAct)) (hlen : ∀ x ∈ sched, ∀ id, x.2 ≠ .append id 0)
     (h : PosLt s) : PosLt (s.run sched) := by
@@ -105,95 +120,50 @@ theorem Drained.step {s s1 : WakeSys} (a : WAct) (h : s.step s.loopTid a = some 
   rw [ht, hall] at hacts
   exact hacts
 
-/-- `_packet_write` with nothing in hand: pop and send every packet, then popleft() raises IndexError -/
-theorem drained_writing (q : List Pkt) : ∀ s : WakeSys, s.lpc = .writing → s.queue = q → (∀ p ∈ q, p.pos < p.len) → Drained s := by
+/-- `_packet_write` with nothing in hand, wherever the writer may run it: pop and send every packet -/
+theorem drained_may (q : List Pkt) : ∀ s : WakeSys, s.lpc.mayWrite = true → s.hand = none → s.queue = q →
+    (∀ p ∈ q, p.pos < p.len) → Drained s := by
   induction q with
   | nil =>
-    intro s hl hq _
-    refine Drained.step (s1 := { s with lpc := .misc }) .pop (by simp [WakeSys.step, hl, hq]) rfl rfl ?_
-    exact Drained.done hq (by simp [WakeSys.handBytes])
+    intro s _ hh hq _
+    exact Drained.done hq (by simp [WakeSys.handBytes, hh])
   | cons p rest ih =>
-    intro s hl hq hpos
+    intro s hl hh hq hpos
     have hp : p.pos < p.len := hpos p (by simp)
-    refine Drained.step (s1 := { s with queue := rest, lpc := .inhand p }) .pop (by simp [WakeSys.step, hl, hq]) rfl rfl ?_
-    refine Drained.step (s1 := { s with queue := rest, lpc := .writing, wire := s.wire ++ p.rest.take (p.len - p.pos) })
+    refine Drained.step (s1 := { s with queue := rest, hand := some p }) .pop (by simp [WakeSys.step, hl, hh, hq]) rfl rfl ?_
+    refine Drained.step (s1 := { s with queue := rest, hand := none, wire := s.wire ++ p.rest.take (p.len - p.pos) })
       (.send (p.len - p.pos)) ?_ rfl rfl ?_
     · have h1 : 0 < p.len - p.pos := by omega
       have h2 : p.pos + (p.len - p.pos) = p.len := by omega
       simp [WakeSys.step, h1, h2]
-    · exact ih _ rfl rfl (fun x hx => hpos x (by simp [hx]))
+    · exact ih _ hl rfl rfl (fun x hx => hpos x (by simp [hx]))
 
-theorem drained_inhand (s : WakeSys) (p : Pkt) (hl : s.lpc = .inhand p) (hpos : PosLt s) : Drained s := by
-  have hp : p.pos < p.len := hpos.2 p hl
-  refine Drained.step (s1 := { s with lpc := .writing, wire := s.wire ++ p.rest.take (p.len - p.pos) })
-    (.send (p.len - p.pos)) ?_ rfl rfl ?_
-  · have h1 : 0 < p.len - p.pos := by omega
-    have h2 : p.pos + (p.len - p.pos) = p.len := by omega
-    simp [WakeSys.step, hl, h1, h2]
-  · exact drained_writing _ _ rfl rfl hpos.1
-
-/-- select() returned with the socket in the write set (possibly only after the wake-up pipe was read: this is where
-the statement order of `_loop`, `Gen.loopOrderOk`, is needed) -/
-theorem drained_woke_w (s : WakeSys) (pr : Bool) (hl : s.lpc = .woke pr true) (hpos : PosLt s) : Drained s := by
-  have hstart : ∀ s : WakeSys, s.lpc = .woke false true → (∀ p ∈ s.queue, p.pos < p.len) → Drained s := by
-    intro s hl hq
-    refine Drained.step (s1 := { s with lpc := .writing }) .startw (by simp [WakeSys.step, hl]) rfl rfl ?_
-    exact drained_writing _ _ rfl rfl hq
-  cases pr with
-  | false => exact hstart s hl hpos.1
-  | true =>
-    refine Drained.step (s1 := { s with pipe := s.pipe - min s.pipe 10000, lpc := .woke false true }) .drain
-      (by simp [WakeSys.step, hl, Gen.loopOrderOk]) rfl rfl ?_
-    exact hstart _ rfl hpos.1
-
-theorem drained_woke_pipe (s : WakeSys) (sw : Bool) (hl : s.lpc = .woke true sw) (hpos : PosLt s) : Drained s := by
-  refine Drained.step (s1 := { s with pipe := s.pipe - min s.pipe 10000, lpc := .woke false true }) .drain
-    (by simp [WakeSys.step, hl, Gen.loopOrderOk]) rfl rfl ?_
-  exact drained_woke_w _ false rfl ⟨hpos.1, by simp⟩
-
-theorem drained_woke_idle (s : WakeSys) (hl : s.lpc = .woke false false) (hq : s.queue = []) : Drained s := by
-  refine Drained.step (s1 := { s with lpc := .misc }) .skipw (by simp [WakeSys.step, hl]) rfl rfl ?_
-  exact Drained.done hq (by simp [WakeSys.handBytes])
-
-/-- before `want_write()` -/
-theorem drained_top (s : WakeSys) (hl : s.lpc = .top) (hpos : PosLt s) : Drained s := by
-  refine Drained.step (s1 := { s with lpc := .armed (!s.queue.isEmpty) }) .wantw (by simp [WakeSys.step, hl]) rfl rfl ?_
-  refine Drained.step (s1 := { s with lpc := .woke (decide (s.pipe > 0)) (!s.queue.isEmpty), stalls := _ }) (.select false true)
-    (by simp [WakeSys.step]; rfl) rfl rfl ?_
-  cases hq : s.queue with
-  | cons p rest => exact drained_woke_w _ (decide (s.pipe > 0)) (by simp) ⟨by simpa [hq] using hpos.1, by simp⟩
-  | nil =>
-    by_cases hp : s.pipe > 0
-    · exact drained_woke_pipe _ _ (by simp [hp]; rfl) ⟨by simp, by simp⟩
-    · exact drained_woke_idle _ (by simp [hp]) rfl
-
-theorem drained_misc (s : WakeSys) (hl : s.lpc = .misc) (hpos : PosLt s) : Drained s := by
-  refine Drained.step (s1 := { s with lpc := .top }) .next (by simp [WakeSys.step, hl]) rfl rfl ?_
-  exact drained_top _ rfl ⟨hpos.1, by simp⟩
-
-theorem drained_woke (s : WakeSys) (pr sw : Bool) (hl : s.lpc = .woke pr sw) (hpos : PosLt s) : Drained s := by
-  cases pr with
-  | true => exact drained_woke_pipe s sw hl hpos
-  | false =>
-    cases sw with
-    | true => exact drained_woke_w s false hl hpos
-    | false =>
-      refine Drained.step (s1 := { s with lpc := .misc }) .skipw (by simp [WakeSys.step, hl]) rfl rfl ?_
-      exact drained_misc _ rfl ⟨hpos.1, by simp⟩
-
-theorem drained_armed (s : WakeSys) (w : Bool) (hl : s.lpc = .armed w) (hpos : PosLt s) : Drained s := by
-  refine Drained.step (s1 := { s with lpc := .woke (decide (s.pipe > 0)) w, stalls := _ }) (.select false true)
-    (by simp [WakeSys.step, hl]; rfl) rfl rfl ?_
-  exact drained_woke _ _ _ rfl ⟨hpos.1, by simp⟩
+/-- nothing in hand: bring the writer to a place where it may write (`select false true` from `armed`, `next` from
+`misc`), then drain -/
+theorem drained_nohand (s : WakeSys) (hl : s.lpc ≠ .dead) (hh : s.hand = none) (hq : ∀ p ∈ s.queue, p.pos < p.len) : Drained s := by
+  cases h : s.lpc with
+  | top => exact drained_may _ s (by simp [h, LPc.mayWrite]) hh rfl hq
+  | woke pr sw => exact drained_may _ s (by simp [h, LPc.mayWrite]) hh rfl hq
+  | writing => exact drained_may _ s (by simp [h, LPc.mayWrite]) hh rfl hq
+  | armed w =>
+    refine Drained.step (s1 := { s with lpc := .woke (decide (s.pipe > 0)) w, stalls := _ }) (.select false true)
+      (by simp [WakeSys.step, h]; rfl) rfl rfl ?_
+    exact drained_may _ _ (by simp [LPc.mayWrite]) hh rfl hq
+  | misc =>
+    refine Drained.step (s1 := { s with lpc := .top }) .next (by simp [WakeSys.step, h]) rfl rfl ?_
+    exact drained_may _ _ (by simp [LPc.mayWrite]) hh rfl hq
+  | dead => exact absurd h hl
 
 theorem drained_live (s : WakeSys) (hl : s.lpc ≠ .dead) (hpos : PosLt s) : Drained s := by
-  cases h : s.lpc with
-  | top => exact drained_top s h hpos
-  | armed w => exact drained_armed s w h hpos
-  | woke pr sw => exact drained_woke s pr sw h hpos
-  | writing => exact drained_writing _ s h rfl hpos.1
-  | inhand p => exact drained_inhand s p h hpos
-  | misc => exact drained_misc s h hpos
-  | dead => exact absurd h hl
+  cases hh : s.hand with
+  | none => exact drained_nohand s hl hh hpos.1
+  | some p =>
+    have hp : p.pos < p.len := hpos.2 p hh
+    refine Drained.step (s1 := { s with hand := none, wire := s.wire ++ p.rest.take (p.len - p.pos) })
+      (.send (p.len - p.pos)) ?_ rfl rfl ?_
+    · have h1 : 0 < p.len - p.pos := by omega
+      have h2 : p.pos + (p.len - p.pos) = p.len := by omega
+      simp [WakeSys.step, hh, h1, h2]
+    · exact drained_nohand _ hl rfl hpos.1
 
 end Paho.Thr
